@@ -43,7 +43,17 @@ class LReq(LNode):
     tag: str = ""
 
 
-CLS = {c.__name__: c for c in (LNode, LLeaf, LLeafB, LInner, LReq)}
+@dataclass
+class LBlock(LNode):
+    """a container-like node: falsy in a boolean context while it has no kids"""
+
+    kids: tuple[LNode, ...] = ()
+
+    def __len__(self) -> int:
+        return len(self.kids)
+
+
+CLS = {c.__name__: c for c in (LNode, LLeaf, LLeafB, LInner, LReq, LBlock)}
 
 # (name, kind, allowed classes)  kind: single | tuple | list
 CHILD_FIELDS: dict[str, list[tuple[str, str, tuple[str, ...]]]] = {
@@ -52,6 +62,7 @@ CHILD_FIELDS: dict[str, list[tuple[str, str, tuple[str, ...]]]] = {
     "LLeafB": [],
     "LInner": [("one", "single", ("any",)), ("items", "tuple", ("any",)), ("lst", "list", ("any",)), ("only_leaf", "single", ("LLeaf",))],
     "LReq": [("req", "single", ("any",))],
+    "LBlock": [("kids", "tuple", ("any",))],
 }
 PROP_FIELDS: dict[str, list[tuple[str, bool]]] = {  # (name, compare)
     "LNode": [],
@@ -59,5 +70,6 @@ PROP_FIELDS: dict[str, list[tuple[str, bool]]] = {  # (name, compare)
     "LLeafB": [("v", True)],
     "LInner": [("tag", True)],
     "LReq": [("tag", True)],
+    "LBlock": [],
 }
 OPTIONAL = {("LInner", "one"), ("LInner", "only_leaf")}
